@@ -14,7 +14,8 @@ code performs, in the code's order —
 * `Overlay::commit`                    (`commitOvP`):     parent-marker check **before** the write guard · write guard · poison
   check · root check + `mark_committed` + root + marker · `rollback.commit` · `Store::commit`
 * `Overlay::try_commit_nonblocking`    (`tryCommitOvP`):  marker check · `try_write` · … as `Overlay::commit`
-* `Nomt::rollback`                     (`rollbackP`):     `n == 0` · write guard · `Rollback::truncate(n)` (pops the in-memory log,
+* `Nomt::rollback`                     (`rollbackP`):     `n == 0` · write guard · poison check (since the repair of F21; before it only
+  the inner commit looked at the flag: `Quirks.rollbackPoisonLate`) · `Rollback::truncate(n)` (pops the in-memory log,
   `pending_truncate`) · session on the traceback, `finish` · inner `commit` without guard and without delta
 * `Store::commit`                      (`storeCommit`):   sync lock · poison check once more · `Sync::sync` · poison on `Err`
 * `Sync::sync`                         (`sync`):          the three `begin_sync`s (bitbox: `prepare_sync` then the WAL write-out task;
@@ -33,7 +34,7 @@ show), the poison flag, and `disk`: the committed state the durable meta page na
 (`pending`), whether the new state's hash-table pages exist only in the WAL (`tableInWal`), and `corrupt` (the WAL was
 truncated although the table is incomplete — unreachable in the code as it is, reachable in the pre-F2 order).
 
-`Quirks` switches ONE line each back to a pre-repair order (F1, F6, F8, F2) or to a seeded one-line change; the code as it is
+`Quirks` switches ONE line each back to a pre-repair order (F1, F6, F8, F2, F21) or to a seeded one-line change; the code as it is
 has every quirk off (`{}`); the theorems are about `{}` and the kernel-checked counterexamples about the quirks.
 
 Not modelled here: blocking on the access lock (a blocking call is modelled from the moment it owns the write guard — the
@@ -127,6 +128,7 @@ structure Quirks where
   htResultIgnored : Bool := false        -- F2: `write_ht` ignored the completion results
   fsyncResultsOr : Bool := false         -- seeded: `bbn_result.or(ln_result)?`
   postMetaOverwritten : Bool := false    -- seeded: `wait_post_meta()`'s result assigned over `bitbox_sync.post_meta()`'s
+  rollbackPoisonLate : Bool := false     -- F21: `Nomt::rollback` looked at the poison flag only in the inner commit, after `truncate(n)`
 deriving DecidableEq, Repr
 
 /-- what the state does not determine about one call -/
@@ -362,24 +364,29 @@ def tryCommitOvP (E : Env) (p : PSt Node VH) (oid : Nat) : Out Node VH :=
 
 variable (H : Hasher Node VH)
 
-/-- `Nomt::rollback` -/
+/-- `Nomt::rollback` (as repaired for F21: the poison check comes right after the write guard, BEFORE `store.rollback()` /
+`truncate(n)`; `Q.rollbackPoisonLate` is the order before the repair) -/
 def rollbackP (E : Env) (p : PSt Node VH) (n : Nat) : Out Node VH :=
   if n = 0 then ⟨.ok, p, []⟩ else
-  -- `let _write_guard = self.access_lock.write();`  `let Some(rollback) = self.store.rollback() else { bail }`
-  if !p.mem.rollbackOn then ⟨.err, p, [.guardWrite]⟩ else
+  -- `let _write_guard = self.access_lock.write();`  `if self.store.is_poisoned() { bail }`
+  if !E.Q.rollbackPoisonLate && p.poisoned then ⟨.err, p, [.guardWrite, .poisonCheck false]⟩ else
+  let t0 : List Step := if E.Q.rollbackPoisonLate then [.guardWrite] else [.guardWrite, .poisonCheck true]
+  -- `let Some(rollback) = self.store.rollback() else { bail }`
+  if !p.mem.rollbackOn then ⟨.err, p, t0⟩ else
   -- `rollback.truncate(n)?`: `Ok(None)` → bail "not enough logged"
-  if n > p.mem.log.length then ⟨.err, p, [.guardWrite]⟩ else
+  if n > p.mem.log.length then ⟨.err, p, t0⟩ else
   let tb := traceback (p.mem.log.take n)
   let p1 := { p with mem := { p.mem with log := p.mem.log.drop n } }      -- popped; `pending_truncate` set
   -- `begin_session` (no delta, no guard), `warm_up`, `sess.finish(actuals)?`
-  if !E.finishOk then ⟨.err, p1, [.guardWrite, .rbTruncate, .sessionFinish false]⟩ else
+  if !E.finishOk then ⟨.err, p1, t0 ++ [.rbTruncate, .sessionFinish false]⟩ else
   let kv' := kvApply p.mem.kv tb
-  -- inner `FinishedSession::commit` (`take_global_guard = false`, `rollback_delta = None`)
-  if p.poisoned then ⟨.err, p1, [.guardWrite, .rbTruncate, .sessionFinish true, .poisonCheck false]⟩ else
+  -- inner `FinishedSession::commit` (`take_global_guard = false`, `rollback_delta = None`): its poison check can only fire
+  -- in the order before the repair
+  if p.poisoned then ⟨.err, p1, t0 ++ [.rbTruncate, .sessionFinish true, .poisonCheck false]⟩ else
   -- the root check compares `shared.root` with the root `begin_session` read under the same write guard: always equal
   let p2 := { p1 with mem := { p1.mem with root := rootOfKV H kv', lastMarker := none } }
   let (r, q, ts) := storeCommit E false tb p2
-  ⟨r, q, [.guardWrite, .rbTruncate, .sessionFinish true, .poisonCheck true, .rootCheck true, .rootSet] ++ ts⟩
+  ⟨r, q, t0 ++ [.rbTruncate, .sessionFinish true, .poisonCheck true, .rootCheck true, .rootSet] ++ ts⟩
 
 /-- dropping the handle and opening the directory again (no power loss: every issued write stays); `none`: the directory
 holds neither a committed state -/
